@@ -112,6 +112,7 @@ def check_sat(formulas, budget=QUICK, want_model=True, fallbacks=True):
     except z3.Z3Exception:
         pass
     smt = s.to_smt2()
+    cli_sat = None
     for name, cmd in (("cvc5-1.0.3", ["/usr/bin/cvc5", "--lang=smt2", f"--tlimit={budget['cli_s']*1000}"]),
                       ("z3-4.8.12", ["/usr/bin/z3", f"-T:{budget['cli_s']}", "-smt2"])):
         if not os.path.exists(cmd[0]):
@@ -128,7 +129,22 @@ def check_sat(formulas, budget=QUICK, want_model=True, fallbacks=True):
             os.unlink(fn)
         if ans == "unsat":
             return ("unsat", None, time.time() - t0, name)
-        # a CLI 'sat' gives no model through this route; keep looking, report unknown if nobody else answers
+        if ans == "sat":
+            cli_sat = name
+            break
+    if cli_sat:
+        # an independent solver found the VC refutable; the in-process z3 gave up (its search is not reproducible across process
+        # states).  Try once more for a model with another seed, otherwise report the refutation without a model
+        for seed in (7, 23):
+            try:
+                s3 = _mk(budget["rlimit"], 2 * budget["wall_ms"])
+                s3.set("random_seed", seed)
+                s3.add(*formulas)
+                if s3.check() == z3.sat:
+                    return ("sat", s3.model() if want_model else None, time.time() - t0, f"{cli_sat}+z3-5.1(seed {seed})")
+            except z3.Z3Exception:
+                pass
+        return ("sat", None, time.time() - t0, cli_sat + " (no model)")
     return ("unknown", None, time.time() - t0, "all")
 
 
